@@ -26,7 +26,7 @@ def timer(func: F) -> F:
         value = func(*args, **kwargs)
         end_time = datetime.now()
         run_time = end_time - start_time
-        print(f'Timer: Finished function "{getattr(func, "__name__", repr(func))}" in {run_time}.')
+        print(f'Timer: Finished function "{func.__name__ if hasattr(func, "__name__") else repr(func)}" in {run_time}.')
         return value
 
     @wraps(func)
@@ -35,7 +35,7 @@ def timer(func: F) -> F:
         value = await func(*args, **kwargs)
         end_time = datetime.now()
         run_time = end_time - start_time
-        print(f'Timer: Finished function "{getattr(func, "__name__", repr(func))}" in {run_time}.')
+        print(f'Timer: Finished function "{func.__name__ if hasattr(func, "__name__") else repr(func)}" in {run_time}.')
         return value
 
     if inspect.iscoroutinefunction(func):
